@@ -2,7 +2,7 @@
 //! them (the memory is not really released), so that a double free is *counted* instead of being
 //! undefined behaviour and the address is never reused while a scenario runs.
 use std::alloc::{GlobalAlloc, Layout, System};
-use std::sync::atomic::{AtomicBool, AtomicUsize, Ordering};
+use std::sync::atomic::{AtomicBool, AtomicIsize, AtomicUsize, Ordering};
 
 const N: usize = 256;
 static ARMED: AtomicBool = AtomicBool::new(false);
@@ -10,12 +10,22 @@ static PTRS: [AtomicUsize; N] = [const { AtomicUsize::new(0) }; N];
 static FREES: [AtomicUsize; N] = [const { AtomicUsize::new(0) }; N];
 static USED: AtomicUsize = AtomicUsize::new(0);
 
+/// bytes allocated minus bytes released while a `scoped` call into the code under test was running
+static SCOPE: AtomicBool = AtomicBool::new(false);
+static SCOPED_LIVE: AtomicIsize = AtomicIsize::new(0);
+
 pub struct Tracking;
 unsafe impl GlobalAlloc for Tracking {
     unsafe fn alloc(&self, l: Layout) -> *mut u8 {
+        if SCOPE.load(Ordering::Relaxed) {
+            SCOPED_LIVE.fetch_add(l.size() as isize, Ordering::Relaxed);
+        }
         System.alloc(l)
     }
     unsafe fn dealloc(&self, p: *mut u8, l: Layout) {
+        if SCOPE.load(Ordering::Relaxed) {
+            SCOPED_LIVE.fetch_sub(l.size() as isize, Ordering::Relaxed);
+        }
         if ARMED.load(Ordering::Relaxed) {
             let n = USED.load(Ordering::Relaxed);
             for i in 0..n {
@@ -28,6 +38,9 @@ unsafe impl GlobalAlloc for Tracking {
         System.dealloc(p, l)
     }
     unsafe fn realloc(&self, p: *mut u8, l: Layout, new_size: usize) -> *mut u8 {
+        if SCOPE.load(Ordering::Relaxed) {
+            SCOPED_LIVE.fetch_add(new_size as isize - l.size() as isize, Ordering::Relaxed);
+        }
         System.realloc(p, l, new_size)
     }
 }
@@ -49,4 +62,19 @@ pub fn watch<T: ?Sized>(p: *const T) -> usize {
 }
 pub fn frees(slot: usize) -> usize {
     FREES[slot].load(Ordering::Relaxed)
+}
+
+/// run `f` (a call into the code under test) with allocation accounting switched on
+pub fn scoped<R>(f: impl FnOnce() -> R) -> R {
+    SCOPE.store(true, Ordering::Relaxed);
+    let r = f();
+    SCOPE.store(false, Ordering::Relaxed);
+    r
+}
+pub fn scoped_reset() {
+    SCOPED_LIVE.store(0, Ordering::Relaxed);
+}
+/// bytes allocated inside scoped calls and not released inside scoped calls since the last reset
+pub fn scoped_live() -> isize {
+    SCOPED_LIVE.load(Ordering::Relaxed)
 }
